@@ -658,6 +658,41 @@ example : (∀ i j : Fin 2, i < j → (!![2, 0; 1, 2] : _root_.Matrix (Fin 2) (F
   · intro i j hij; fin_cases i <;> fin_cases j <;> simp_all
   · intro i; fin_cases i <;> simp
 
+/-! ### any element type: the factorisations commute with structure-preserving maps -/
+
+section natural
+variable {α β : Type}
+  [Add α] [Sub α] [Mul α] [Div α] [Neg α] [Zero α] [One α] [RealFns α] [NumOrd α]
+  [Add β] [Sub β] [Mul β] [Div β] [Neg β] [Zero β] [One β] [RealFns β] [NumOrd β]
+
+/-- **Cholesky and LDLᵀ are natural in the element type.**  For any map `φ` between element types
+    that commutes with `+ − × ÷ 0 1 sqrt` and the comparisons (`NumHom φ`), factoring the image of
+    a tensor gives the image of its factors — presence and every entry, every size.  The routines
+    are generic: they cannot do anything at one numeric type that they do not do at another. -/
+theorem factorisations_natural {φ : α → β} (h : NumHom φ) (A : Matrix α) :
+    cholesky (mapM φ A) = (cholesky A).map (mapM φ) ∧
+    ldlt (mapM φ A) = (ldlt A).map (fun s => (mapM φ s.1, mapM φ s.2)) :=
+  ⟨cholesky_natural h A, ldlt_natural h A⟩
+
+/-- **Over `Trace<T>` the value of the factor is the factor of the values**: for dual numbers
+    (`Dual R`, the model of `Trace<T>` with the rules of `trace_operations.rs`) over any element
+    type `R`, the number parts of the Cholesky / LDLᵀ factors of `A` are the factors of the number
+    parts of `A`, and the decomposition is present for the one exactly when it is for the other —
+    whatever the derivative parts are. -/
+theorem factorisations_over_trace {R : Type} [Add R] [Sub R] [Mul R] [Div R] [Neg R] [Zero R] [One R]
+    [RealFns R] [NumOrd R] (A : Matrix (Dual R)) :
+    cholesky (mapM Dual.number A) = (cholesky A).map (mapM Dual.number) ∧
+    ldlt (mapM Dual.number A)
+      = (ldlt A).map (fun s => (mapM Dual.number s.1, mapM Dual.number s.2)) :=
+  factorisations_natural dualNumber_hom A
+
+/-- Non-vacuity: the identity is such a map (and `Dual.number` by `dualNumber_hom`). -/
+example : NumHom (id : Fp → Fp) :=
+  ⟨rfl, rfl, fun _ _ => rfl, fun _ _ => rfl, fun _ _ => rfl, fun _ _ => rfl, fun _ => rfl,
+    fun _ _ => rfl, fun _ _ => rfl⟩
+
+end natural
+
 /-! ### shape rejection -/
 
 /-- Non-square inputs are rejected by Cholesky and LDLᵀ (any element type). -/
